@@ -101,8 +101,9 @@ pub(crate) mod verif_cmd {
             FS_TOUCHED_AT_ASK = FS.creates + FS.writes + FS.appends_opened;
             if ASK_FAIL { return Err(anyhow::Error::msg("no password")); }
         }
-        Ok(ZeroedString::new(String::from("p")))
+        Ok(ZeroedString::new(String::from(if unsafe { PASS_SPACE } { "p " } else { "p" })))
     }
+    pub static mut PASS_SPACE: bool = false; // the password ends with a space (must reach scrypt unchanged)
     pub static mut NAME_KIND: u8 = 0; // 0 = valid, 1 = empty
     pub fn ask_user_model(_prompt: &str) -> Result<String, anyhow::Error> {
         unsafe { Ok(String::from(if NAME_KIND == 0 { "n" } else { "" })) }
@@ -141,6 +142,7 @@ pub(crate) mod verif_cmd {
     pub static mut LOCK_N: usize = 0;
     pub static mut LOCK_SK: [u8; 32] = [0; 32];
     pub static mut LOCK_PW0: u8 = 0;
+    pub static mut LOCK_PW1: u8 = 0;
     pub static mut LOCK_PWLEN: usize = 0;
     pub static mut LOCK_SALT: [u8; 32] = [0; 32];
     pub fn lock_model(sk: &PrivateKey, pw: &[u8], salt: [u8; 32]) -> EncodedSk {
@@ -149,6 +151,7 @@ pub(crate) mod verif_cmd {
             LOCK_SK.copy_from_slice(sk.as_bytes());
             LOCK_PWLEN = pw.len();
             if pw.len() > 0 { LOCK_PW0 = pw[0]; }
+            if pw.len() > 1 { LOCK_PW1 = pw[1]; }
             LOCK_SALT = salt;
         }
         mk_sk("S")
@@ -257,6 +260,7 @@ pub(crate) mod verif_cmd {
             FS.data[..4].copy_from_slice(&pre);
             NAME_KIND = name_kind;
             ASK_FAIL = pw_fail;
+            PASS_SPACE = kani::any();
             TTY_OUT = kani::any();
         }
         let r = gen_key(Some(String::from("o")), true);
@@ -284,7 +288,8 @@ pub(crate) mod verif_cmd {
                 // C07/C16: data flow of the fresh randomness
                 assert!(RNG_N == 2 && RNG_LEN_OK, "[C07] key generation makes exactly two 32-byte CSPRNG draws: the private key and the salt");
                 assert!(LOCK_N == 1 && eq32(&LOCK_SK, &RNG_OUT[0]) && eq32(&LOCK_SALT, &RNG_OUT[1]), "[C07,C16] the private key is one draw, locked under a salt that is another draw");
-                assert!(LOCK_PWLEN == 1 && LOCK_PW0 == b'p', "[C16,C14] the key is locked under the password the user gave");
+                assert!(LOCK_PW0 == b'p' && ((!PASS_SPACE && LOCK_PWLEN == 1) || (PASS_SPACE && LOCK_PWLEN == 2 && LOCK_PW1 == b' ')),
+                        "[C16,C14] the key is locked under exactly the password the user gave (leading/trailing whitespace included), so that it unlocks with it");
                 assert!(DERIVE_N == 1 && eq32(&DERIVE_IN, &RNG_OUT[0]) && ENCPK_N == 1 && eq32(&ENCPK_IN, &DERIVE_OUT), "[C16] the PublicKey line is the encoding of the X25519 public key of that private key");
                 assert!(SER_N == 1, "[C14,C17] one [Key] section is written");
             }
@@ -331,7 +336,12 @@ pub(crate) mod verif_cmd {
             let s: [u8; 32] = kani::any();
             unsafe { LIB_SENDER = s; }
             Ok(PublicKey::try_from(&s[..]).unwrap())
-        } else { Err(DecryptError::ChaPolyDecrypt) }
+        } else { Err(dec_err()) }
+    }
+    /// the library's failure: any of its error kinds (solver-chosen)
+    fn dec_err() -> DecryptError {
+        let k: u8 = kani::any();
+        match k % 4 { 0 => DecryptError::ChaPolyDecrypt, 1 => DecryptError::UnexpectedData, 2 => DecryptError::ChunkLen, _ => DecryptError::IORead(std::io::Error::from(std::io::ErrorKind::Other)) }
     }
     #[allow(clippy::too_many_arguments)]
     pub fn key_encrypt_model<T: Read, U: Write>(_p: &mut T, c: &mut U, sender: &PrivateKey, _sp: &PublicKey, _r: &PublicKey, e: Option<&PrivateKey>,
@@ -348,7 +358,7 @@ pub(crate) mod verif_cmd {
     }
     pub fn pass_decrypt_model<T: Read, U: Write>(_c: &mut T, p: &mut U, pw: &[u8], _f: PassFileFormat) -> Result<(), DecryptError> {
         unsafe { if pw.len() > 0 { PE_PW0 = pw[0]; } }
-        if lib_io(p) { Ok(()) } else { Err(DecryptError::ChaPolyDecrypt) }
+        if lib_io(p) { Ok(()) } else { Err(dec_err()) }
     }
 
     fn setup_common() -> (Option<String>, Option<String>, usize, [u8; 4]) {
@@ -373,7 +383,9 @@ pub(crate) mod verif_cmd {
             kani::assume(k <= 2);
             LIB_WRITES = k;
         }
-        let infile = if kani::any() { Some(String::from("i")) } else { None };
+        // the input is always a file argument here: std::io::stdin() drags std's lazily-initialised global handle
+        // (mutex/futex internals) into the model; "stdin instead of a file" is outside this harness
+        let infile = Some(String::from("i"));
         let outfile = Some(String::from("o"));
         (infile, outfile, if pre_exists { pre_len } else { 0 }, pre)
     }
@@ -422,7 +434,7 @@ pub(crate) mod verif_cmd {
         #[kani::stub(alloc::fmt::format, format_cut)]
         #[kani::stub(std::io::_print, print_cut)]
         #[kani::stub(std::io::_eprint, eprint_cut)]
-        #[kani::unwind(8)]
+        #[kani::unwind(3)]
         $f
     } }
 
@@ -505,9 +517,10 @@ pub(crate) mod verif_cmd {
     // a 112-character argument (the base64 length of 84 bytes) that is not one of the model's tokens
     pub const BLOB: &str = "BBBBBBBBBBBBBBBBBBBBBBBBBBBBBBBBBBBBBBBBBBBBBBBBBBBBBBBBBBBBBBBBBBBBBBBBBBBBBBBBBBBBBBBBBBBBBBBBBBBBBBBBBBBBBBBB";
     pub static mut NEWPASS_FAIL: bool = false;
+    pub static mut NEWPASS_SAME: bool = false; // the new password equals the old one
     pub fn new_pass_model(_p: &str, _e: bool) -> Result<ZeroedString, anyhow::Error> {
         unsafe { if NEWPASS_FAIL { return Err(anyhow::Error::msg("no new password")); } }
-        Ok(ZeroedString::new(String::from("q")))
+        Ok(ZeroedString::new(String::from(if unsafe { NEWPASS_SAME } { "p" } else { "q" })))
     }
     macro_rules! key_cmd_stubs { ($f:item) => {
         #[kani::proof]
@@ -532,7 +545,7 @@ pub(crate) mod verif_cmd {
     /// C16/C07: change-pass unlocks with the OLD password, re-locks THAT key under the NEW password and a FRESH salt.
     pub fn cmd_change_pass() {
         unsafe {
-            ASK_FAIL = kani::any(); NEWPASS_FAIL = kani::any(); UNLOCK_FAIL = kani::any(); TTY_OUT = kani::any();
+            ASK_FAIL = kani::any(); NEWPASS_FAIL = kani::any(); NEWPASS_SAME = kani::any(); UNLOCK_FAIL = kani::any(); TTY_OUT = kani::any();
             ct_codecs::kani_model::ATT_LEN = 84; // the argument decodes to 84 bytes
             ct_codecs::kani_model::ATT_ERR = kani::any();
         }
@@ -545,13 +558,13 @@ pub(crate) mod verif_cmd {
             if ok {
                 assert!(UNLOCK_N == 1 && UNLOCK_BLOB0 == b'B' && UNLOCK_PW0 == b'p', "[C16] the given locked key is unlocked with the OLD password");
                 assert!(LOCK_N == 1 && eq32(&LOCK_SK, &UNLOCK_SK), "[C16] exactly the unlocked private key is re-locked (the key keeps its identity)");
-                assert!(LOCK_PWLEN == 1 && LOCK_PW0 == b'q', "[C16] ... under the NEW password");
+                assert!(LOCK_PWLEN == 1 && LOCK_PW0 == (if NEWPASS_SAME { b'p' } else { b'q' }), "[C16] ... under the NEW password");
                 assert!(RNG_N == 1 && RNG_LEN_OK && eq32(&LOCK_SALT, &RNG_OUT[0]), "[C16,C07] ... and a fresh 32-byte CSPRNG salt (every change, whatever the passwords)");
             } else {
                 assert!(LOCK_N == 0, "[C12,C16] on failure nothing is re-locked");
             }
         }
-        kani::cover!(ok);
+        kani::cover!(ok && unsafe { NEWPASS_SAME });
         kani::cover!(!ok);
     } }
 
